@@ -59,7 +59,7 @@ func Specs() map[string]*PropSpec {
 		Rules:       []RuleRef{rR15, rR15r, rR14pair, rR6, rR17, rR9s, rR20n, rR20m, rR6w, rR15m, rR26, rR9v, rR9w, rR30g, rR17x, rR6c, rR19a, rR9q, rR14order, rR15l, rR20x}})
 	add(&PropSpec{ID: "C06", Files: []string{"memdb/"},
 		Explanation: "Lazy expiry decided structurally: every observation of a key is dominated by CheckTTL on the same key, KEYS filters candidates through it (R21); key removal and overwrite are paired with deadline removal, KEEPTTL excepted (R22); the expiry routine deletes only on a deadline re-read under the key's stripe (R17). Clock arithmetic is not decided; of the EXPIRE options only the structure is (which lookup outcome and which comparison each arm passes before it installs a deadline, R22e), not the values compared.",
-		Rules:       []RuleRef{rR21, rR22, rR22d, rR22w, rR22o, rR17, rR24u, rR22e, rR22m, rR14pair, rR25, rR15}})
+		Rules:       []RuleRef{rR21, rR22, rR22d, rR22w, rR22o, rR17, rR24u, rR22e, rR22m, rR14pair, rR25, rR15, rR22k}})
 	add(&PropSpec{ID: "C07", Files: []string{"server/", "raftexample/", "memdb/", "etcd/server/storage/wal/wal.go"},
 		Explanation: "Cluster-mode structure: connection goroutines reach the state machine only by proposing (R23) with globally unique proposal ids (R23u); the rendezvous table is mutex-guarded (R17cb); the Ready loop persists before it sends/publishes and ends in Advance, the apply loop executes before it acknowledges (R16r); blocking or connection-using executors are filtered (R18); nondeterministic inputs to replicated state and exits on the raft path are enumerated (R24, R5: known findings); bounds on the cluster path (R1). Linearizability and agreement at run time are not decided. A proposal is sent once per command (R23p); restart hands every WAL entry to the storage and picks a snapshot the WAL vouches for (R16x).",
 		Rules:       []RuleRef{rR23, rR23u, rR17cb, rR16r, rR18, rR24, rR5, boundsRule("R1c", []string{"server", "raftexample"}, nil, 4), rR23p, rR16x, rR16e, rR16f, rR18c, rR20cs, rR16y, rR23a, rR16o, rR10j, rR23r, rR23c, rR16k, rR16u, rR16i, rR16j, rR16l, rR16b}})
